@@ -48,6 +48,11 @@ REAL_VS_STUB = {
 FAULT_PROBES = {"eof_at_line_boundary": "eof_at_line_boundary", "eof_inside_line": "eof_inside_line_mid", "eof_inside_final_token": "eof_inside_final_token",
                 "eof_at_molecule_boundary": "eof_at_molecule_boundary", "drop_line": "drop_line", "dup_line": "dup_line", "corrupt_numeric": "corrupt_numeric",
                 "corrupt_count": "corrupt_count", "corrupt_tag": "corrupt_tag", "corrupt_byte_invalid_utf8": "corrupt_byte"}
+# A share of the plans (the complete truncation enumeration first) is also executed by fresh interpreters started with
+# `python -O`: input validation written as `assert` disappears there, and a reader must reject damaged input under every
+# legal way of starting the interpreter.
+INTERP_VARIANTS = [{"flags": ["-O"], "runs": {"quick": 360, "thorough": 6000},
+                    "what": "python -O (assert statements stripped from the readers)"}]
 PROBES = ["eof_inside_attribute_record", "eof_at_line_boundary", "eof_inside_final_token", "eof_inside_line_mid", "eof_at_molecule_boundary", "drop_line", "dup_line",
           "corrupt_numeric", "corrupt_count", "corrupt_tag", "corrupt_byte", "path_entry_used", "rejected_with_exception", "returned_strict_prefix", "returned_all_unchanged",
           "stream_channel_used", "generator_entry_partial_then_exception"]
